@@ -33,7 +33,7 @@ func (c02) Describe() Description {
 	}
 }
 
-var relOps = map[string]bool{"img": true, "cellimg": true, "imgfile": true, "hdr": true, "ftr": true, "hdrpn": true, "ftrpn": true, "fhdr": true, "fftr": true, "li": true, "fn": true, "en": true, "fncfg": true, "prop": true, "foreign": true}
+var relOps = map[string]bool{"tpl.render": true, "img": true, "cellimg": true, "imgfile": true, "hdr": true, "ftr": true, "hdrpn": true, "ftrpn": true, "fhdr": true, "fftr": true, "li": true, "fn": true, "en": true, "fncfg": true, "prop": true, "foreign": true}
 
 func (c02) Nontrivial(c *sim.Case, st *sim.Stats) bool {
 	n := int64(0)
@@ -57,6 +57,14 @@ func (c02) Gen(r *sim.Rand, c *sim.Case, tier string) {
 	if !Wild {
 		g.HFOncePerKind = true
 		g.RectTablesOnly = true
+	}
+	if !fromForeign && r.Chance(0.2) {
+		g.HFOncePerKind = false
+		c.Cfg["template"] = 1
+		c.Tasks = [][]sim.Op{templateScenario(r, g)}
+		c.Order = orderPolicy(r)
+		c.OrderSeed = r.Uint64()
+		return
 	}
 	if fromForeign {
 		flags := int(r.Uint64()) & foreign.FAllBits
